@@ -7,6 +7,7 @@ frames a well-formed reference request is made on the same channel or protocol.
 """
 from __future__ import annotations
 
+import asyncio
 import signal
 import struct
 import sys
@@ -1054,6 +1055,11 @@ def gen_hci(rng, tier, seed):
             else:
                 b += bytes(rng.randrange(256) for _ in range(rng.choice([1, 4, 30])))
             frames.append(bytes(b).hex())
+        elif r < 0.5:
+            # flow-control-only events (opcode 0x0000), stray replies to commands nobody sent, completed-packets reports for nobody
+            frames.append(rng.choice(['040e03010000', '040e03000000', '040e03ff0000', '040f0400010000', '040f0400000000', '040f04ff050000',
+                                      '040e0401030c00', '040f0400011d04', '0413050100000100', '04130501ff0fffff', '041309020100010002000100', '0410' + '01aa',
+                                      '040e0a01091000a0a0a0a0a0a0', '040e03010910', '041a00', '0401' + '0100']))
         elif r < 0.6:
             # ACL packets for the live handle with fragment-flag / length games
             handle = rng.choice([1, 1, 1, 2, 0x0EFF])
@@ -1124,9 +1130,15 @@ def run_hci(case):
         peer = Peer(cv)
 
         async def ref():
-            r = await victim.host.send_command(hci.HCI_Read_BD_ADDR_Command())
+            # three commands issued at once (they have to be serialised by the host) and a GATT read
+            rs = await asyncio.gather(victim.host.send_command(hci.HCI_Read_BD_ADDR_Command()),
+                                      victim.host.send_command(hci.HCI_Read_Local_Version_Information_Command()),
+                                      victim.host.send_command(hci.HCI_Read_BD_ADDR_Command()), return_exceptions=True)
+            bad = [type(x).__name__ for x in rs if isinstance(x, BaseException)]
+            if bad:
+                raise RuntimeError(f'concurrent commands failed: {bad}')
             v = await peer.gatt_client.read_value(ref_char.handle)
-            return r.return_parameters.status, bytes(v)
+            return rs[0].return_parameters.status, bytes(v)
         base = sim.must(ref(), 'hci baseline')
         if base != (0, REF):
             raise HarnessError(f'baseline {base}')
